@@ -50,6 +50,11 @@ CLAIMS = {
         text="Both text grammars are specified twice at token level: a generator (leftmost derivations by a stack machine) and an independent recognizer with the static side conditions (known node classes, unique capture names, variables after their captures, compilable regexes); TLC checks every derived string is recognized and exports every derived string up to MaxTok tokens plus every single-token mutation with the verdict. The driver renders each compact and spaced: ASTXpath returns or raises only ASTXpathDefinitionError, validate_pattern / from_pattern / MultiPatternMatcher agree and leak nothing; accepted xpaths are evaluated on a fixed tree against TreeQ.FindAll of the steps the spec parses from the tokens; accepted patterns match identically after recompilation and extra whitespace. Random token strings are recorded and validated by Trace_Syntax.tla; byte-level noise is checked for totality and agreement only.",
         note="Trusted: TLC, the token renderer (blanks only where two alphanumeric tokens would merge). Leading whitespace of xpaths and the empty text are outside the statement.",
         design="6 C17"),
+    "C09": dict(
+        technique="TLA+ oracle (Visitor.tla: Dispatch along the MRO, Transform as a term with identity bookkeeping) + TLC enumeration of trees x rule sets replayed through generated visitor classes + TLC trace validation",
+        text="Dispatch and transform are pure TLA+ operators; the result of transform is a term (same object / none / new node with per-field `unchanged value object` or child terms / raise). TLC checks that rule sets changing nothing return the tree itself and that strict dispatch never fires a base-class rule for a subclass, and exports for every tree of <= N objects every rule set of at most two rules over five rule kinds, strict and non-strict, plus the dispatch table for every class x method subset. The driver generates the visitor class, runs transform and compares identities (`is` on unchanged subtrees and field values, new nodes on every ancestor of a change), dropped tuple elements, None in single fields, exception propagation, and that input fingerprints and registration are unchanged. Random trees x random rule sets over ten classes are recorded and validated by Trace_Visitor.tla.",
+        note="Trusted: TLC, zoo renderer. The rule family is the one named in the statement; visit_ methods call generic_visit first (bottom-up). validate=True naming checks are not part of this check.",
+        design="6 C09"),
     "C10": dict(
         technique="TLA+ action properties (Immutable, MembershipFrame, FailFrame) on Registry.tla + Observe actions replayed with per-step fingerprints of every live node",
         text="In the Registry machine no action changes the record of a surviving slot (Immutable) and registry membership changes only in detach / detach_self / replace on the receiver's subtree (MembershipFrame); Observe actions stand for every read-only operation kind (traversals, Tree queries, xpath, patterns, visitors, transformers, comparison, hashing, rich printing, accessors, (de)serialization, setattr / delattr on every field) and are UNCHANGED. TLC exports every transition; the driver fingerprints every live node before each call and compares after it, and compares the whole abstract state with the spec's. Recorded histories are checked the same way at every step.",
